@@ -82,6 +82,11 @@ def fsOp (st : DState) (args : List String) : DState × String :=
   | ["add", n, id] => fin (FS.addfilter st.fs (argBytes n) id.toNat!)
   | ["update", o, n, id] => fin (FS.updatefilter st.fs (argBytes o) (argBytes n) id.toNat!)
   | ["replace", o, n, id] => fin (FS.replacefilter st.fs (argBytes o) (.plain id.toNat!) (if n == "-" then none else some (argBytes n)))
+  | ["replacefrom", o, m] =>
+    match FS.getfilter st.fs (argBytes m) with
+    | some (some c) => fin (FS.replacefilter st.fs (argBytes o) c none)
+    | some none => (st, s!"res=none state={showFS st.fs}")
+    | none => (st, s!"res=crash state={showFS st.fs}")
   | ["remove", n] => fin (FS.removefilter st.fs (argBytes n))
   | ["enable", n] => fin (FS.enablefilter st.fs (argBytes n))
   | ["disable", n] => fin (FS.disablefilter st.fs (argBytes n))
